@@ -15,7 +15,9 @@ PROP = dict(
          "decoder vs str::from_utf8. Seeded C-API histories (260 quick / 3000 thorough, 20-70 ops: keys that learn, "
          "enumerate/has_next/get of all four iterators interleaved with every other call class, heap getters of both kinds, "
          "frees incl. foreign and NULL pointers; every second history with mutations between enumerate and has_next/get; "
-         "keyboard-type walks up to ~300 reads past the end) in child processes under a layout-checking allocator with the "
+         "keyboard-type walks up to ~300 reads past the end; chewing_set_selKey / chewing_Configure with selection-key arrays "
+         "holding Latin-1 codes 0x80..0xFF, 0, values beyond a byte and negative values, each followed by "
+         "chewing_config_get_str; chewing_phone_to_bopomofo into caller buffers of 0..19 bytes) in child processes under a layout-checking allocator with the "
          "strict snapshot oracles; every context buffer dumped to its capacity after every step. valgrind memcheck: the 6 "
          "former F22 witnesses + 4 twins, 60 / 300 random histories, thorough: 150 histories with mutations inside the "
          "user-phrase enumeration - all must be clean. "
@@ -43,7 +45,9 @@ MANIFEST = dict(
          "NUL-terminated, holds the longest whole-character prefix that fits (valid UTF-8, decodes to that prefix) and "
          "equals the heap variant's text whenever the text is shorter than the buffer; 'static = heap' is refuted for "
          "every fixed capacity (F35) and proved under utf8Len < cap; keyboard names < 32 and syllable text < 16 by kernel "
-         "evaluation of regenerated tables. (2) Ghost ownership model of the context (OWNED registry, FOUR collected "
+         "evaluation of regenerated tables; chewing_config_get_str(selection_keys) hands out valid UTF-8 decoding to one "
+         "character per key, or ERROR exactly when a key's low byte is 0, for EVERY array of integers the legacy setters may "
+         "have stored (selkeys_getter_wellformed; raw_selkeys_refuted for a C string built from the raw bytes). (2) Ghost ownership model of the context (OWNED registry, FOUR collected "
          "iterators with Peekable's cache - since fix e054b2f the user-phrase iterator owns a snapshot too, since fbe3953 the "
          "keyboard-type counter is fused): every call other than chewing_free is defined in every state (collected_iters_safe, "
          "ub_only_at); NO history of calls in any order with any arguments is undefined (history_defined, no premise; "
@@ -54,8 +58,10 @@ MANIFEST = dict(
          "with their true kinds' (history_ok), so chewing_free releases every live result "
          "and ignores every other pointer - NULL, foreign, interior, released before: free_total. NOT a theorem: that the "
          "real process performs no invalid access — inferred from the model, validated by (a) translator: buffer sizes, "
-         "copy_cstr / chewing_free / user-phrase iterator (owned Vec) / fused keyboard counter shapes, inventory of 126 exported functions, 65 unsafe blocks, iterator sites, "
-         "classification of functions that can reach dictionary mutation; (b) correspondence: every returned buffer "
+         "copy_cstr / chewing_free / user-phrase iterator (owned Vec) / fused keyboard counter / selection-keys getter shapes, inventory of 126 exported functions, 65 unsafe blocks, iterator sites, "
+         "classification of functions that can reach dictionary mutation; (b) correspondence: every string the API hands out (static buffers, heap results incl. "
+         "chewing_config_get_str of both string options, caller buffers of userphrase_get and phone_to_bopomofo) checked "
+         "for NUL termination and valid UTF-8 by the harness, every returned buffer "
          "dumped to capacity and recomputed by the model, protocol results and registry replayed by the model per call, "
          "valgrind memcheck verdicts compared with the model's ub flag. Fixed: F35a (no terminator / cut character), F23 "
          "(free with wrong layout), F23b (stale registry entries: free of a non-owned block, found by the harness), F22 (user-phrase "
